@@ -222,6 +222,54 @@ def run_batch(ctx, hists, stage, have_model):
     return ties
 
 
+INIT_FAILURES = [
+    # (initializer that throws while NewVM runs @init, fatal kind, message): G1
+    ("1 / 0", "ValueError", "Division by zero error: this is operation is illegal"),
+    ("7 % 0", "ValueError", "Division by zero error: this is operation is illegal"),
+    ("1 << -1", "ValueError", "Negative shift count: this is operation is illegal"),
+    ("[1, 2][5]", "IndexOutOfBounds", "Index out of bounds: cannot index a list of length 2 with 5"),
+]
+
+
+def init_failure_cases(ctx):
+    """A library whose global initializer fails (G1): constructing the VM hands the host a VM (no panic), and EVERY invocation
+    on it — SpawnSync or SpawnAsync + Wait + HandleTermination, with and without arguments, also after earlier ones —
+    answers with the exception of the initialization (kind and message, not 'terminated'), prints nothing, leaves no core
+    listed and the cores lock free; the globals defined before the failing one keep their initial values, the later ones
+    do not exist. Implementation-side oracle only (the host model starts from an initialised VM)."""
+    lines, want = [], []
+    for expr, kind, msg in INIT_FAILURES:
+        src = (f"let first = 5;\nlet broken = {expr};\nlet later = 6;\nfn get() -> int {{ println(\"get\"); first }}\n"
+               "fn add(a: int, b: int) -> int { a + b }\nfn touch() { first = first + 1; }\nfn main() { println(\"main\"); }\n")
+        for hist in ([("call", "get", [])], [("acall", "get", [])],
+                     [("call", "add", [H.I(1), H.I(2)]), ("acall", "touch", []), ("call", "main", []), ("acall", "add", [H.I(3), H.I(4)]), ("call", "get", [])],
+                     [("acall", "main", []), ("acall", "main", []), ("call", "touch", []), ("acall", "get", [])]):
+            lines.append(f"(host (main {H.xhex(src)})" + "".join(f" ({m} {H.xhex(f)}" + "".join(" " + H.sx(a) for a in args) + ")" for m, f, args in hist) + ")")
+            want.append((expr, kind, msg, hist))
+    for line, (expr, kind, msg, hist), g in zip(lines, want, core.go_lines("host", lines, timeout=300)):
+        ctx.count(case_key=line, nontrivial=True)
+        ctx.coverage["init_failure_histories"] = ctx.coverage.get("init_failure_histories", 0) + 1
+        parts = g.split(" | ")
+        viol = None
+        if not parts[0].startswith("A=ACCEPT"):
+            viol = f"constructing the VM did not return to the host: {parts[0][:200]}"
+        elif not parts[0].endswith("globals=" + H.globals_sx({"first": H.I(5)})):
+            viol = f"globals after the failed initialization: {parts[0][-120:]}"
+        elif len(parts) - 1 != len(hist):
+            viol = f"{len(parts) - 1} answers for {len(hist)} calls"
+        else:
+            for (m, f, _), p in zip(hist, parts[1:]):
+                d = parse_part(p)
+                if (d.get("kind"), d.get("cls"), d.get("ekind"), d.get("msg")) != ("EXC", "fatal", kind, H.xhex(msg)):
+                    viol = f"{m} {f} answered {p[:200]}, expected the exception of the initialization (fatal {kind}: {msg})"
+                elif d.get("out") != "x" or d.get("cores") != "0" or d.get("lock") != "free" or not p.endswith("globals=" + H.globals_sx({"first": H.I(5)})):
+                    viol = f"{m} {f} on the VM whose initialization failed: {p[:300]}"
+                if viol:
+                    break
+        if viol:
+            ctx.violation({"kind": "hostline", "line": line, "go": g[:1500]}, f"C16 failed initialization (let broken = {expr};): {viol}")
+
+
 def run(ctx):
     st = core.prepare(ctx, MODULES)
     ctx.fn_hits = {}
@@ -250,6 +298,7 @@ def run(ctx):
             else:
                 ctx.note(f"known finding {e['id']}: witness no longer fails")
     run_batch(ctx, [h for _, _, h in REGRESSIONS], "C16 regression", have_model)
+    init_failure_cases(ctx)
     # 2. generated histories
     rng = ctx.rng
     if ctx.tier == "quick":
@@ -295,6 +344,13 @@ def replay(ctx, rep):
     if not ok:
         print(log)
         return 1
+    if rep.get("kind") == "hostline":
+        g = core.go_lines("host", [rep["line"]], timeout=120)[0]
+        for p in g.split(" | "):
+            print("  go:", p[:400])
+        bad = not g.startswith("A=ACCEPT") or any(parse_part(p).get("cls") != "fatal" for p in g.split(" | ")[1:])
+        print("VIOLATION property=C16 replay=(replayed)" if bad else "replay: property holds on this input now")
+        return 1 if bad else 0
     if rep.get("kind") != "history":
         print("replay names a broken obligation, not an input:", json.dumps(rep)[:2000])
         return 1
